@@ -70,6 +70,7 @@ type FuncContract struct {
 	NoOverflow bool
 	Terminates bool
 	AnyMode    bool
+	Uses       []string
 	Extra      map[string]string
 }
 
@@ -145,7 +146,7 @@ var clauseKW = map[string]bool{
 	"func": true, "spec": true, "lemma": true, "axiom": true, "trusted": true, "mode": true, "props": true,
 	"requires": true, "ensures": true, "modifies": true, "loop": true, "inline": true,
 	"pure": true, "nullable": true, "may_alias": true, "panics": true, "wraps": true,
-	"decoder": true, "abstract": true, "ghost": true, "terminates": true, "uninterp": true, "at": true, "opaque": true, "def": true, "table": true, "anymode": true,
+	"decoder": true, "abstract": true, "ghost": true, "terminates": true, "uninterp": true, "at": true, "opaque": true, "def": true, "table": true, "anymode": true, "uses": true,
 }
 
 var reTag = regexp.MustCompile(`^(\w+)\[([A-Z0-9, ]+)\]`)
@@ -467,6 +468,11 @@ func (cs *Contracts) ParseContractFile(path, pkgPath string) error {
 				cur.Decoder = true
 			case "terminates":
 				cur.Terminates = true
+			case "uses":
+				// lemmas (proved as their own obligations) available as hypotheses in this function
+				for _, n := range strings.Fields(strings.ReplaceAll(rest, ",", " ")) {
+					cur.Uses = append(cur.Uses, n)
+				}
 			case "anymode":
 				// the contract's spec expressions mean the same over mathematical integers and over
 				// bit-vectors (no wrap-around can occur in them): it may be applied from either mode
